@@ -28,11 +28,11 @@ inline size_t gen_len(vf::Tape& t, size_t cap) {
 }
 
 struct ContentInfo {
-    size_t size = 0; unsigned ops = 0, copies = 0, farcopies = 0, lits = 0, runs = 0, biglits = 0;
+    size_t size = 0; unsigned ops = 0, copies = 0, farcopies = 0, lits = 0, runs = 0, biglits = 0, noise = 0;
     int size_class = 0;
     std::string summary() const {
-        char b[200];
-        snprintf(b, sizeof b, "content{size=%zu class=%d ops=%u lit=%u run=%u copy=%u far=%u biglit=%u}", size, size_class, ops, lits, runs, copies, farcopies, biglits);
+        char b[240];
+        snprintf(b, sizeof b, "content{size=%zu class=%d ops=%u lit=%u run=%u copy=%u far=%u biglit=%u noise=%u}", size, size_class, ops, lits, runs, copies, farcopies, biglits, noise);
         return b;
     }
 };
@@ -77,7 +77,7 @@ inline std::vector<uint8_t> gen_content_sized(vf::Tape& t, size_t target, Conten
             for (size_t i = 0; i < room; i++) out.push_back((uint8_t)('a' + ((i / per) + (x.s & 3)) % 13));
             break;
         }
-        switch (t.weighted({4, 2, 5, 2, 2, 1, 1, 2})) {
+        switch (t.weighted({4, 2, 5, 2, 2, 1, 1, 2, 1})) {
             case 0: {  // LIT over an alphabet
                 size_t len = gen_len(t, room);
                 unsigned alpha = (unsigned)t.pick<unsigned>({2, 4, 16, 64, 256, 1, 3, 200});
@@ -139,6 +139,23 @@ inline std::vector<uint8_t> gen_content_sized(vf::Tape& t, size_t target, Conten
                 size_t from = out.size() - dist;
                 for (size_t i = 0; i < len; i++) out.push_back(out[from + i]);
                 ci.farcopies++; ci.copies++;
+                break;
+            }
+            case 8: {  // NOISE: a long incompressible stretch (raw blocks), usually followed by copies reaching back across it
+                size_t len = std::min(room, (size_t)t.range(1, 5) * 65536 + (size_t)t.range(0, 70000));
+                Xs x(t.raw() + 23);
+                for (size_t i = 0; i < len; i++) out.push_back((uint8_t)(x.next() >> 3));
+                ci.lits++; ci.noise++;
+                // a few far copies over the noise: large offset codes in an otherwise quiet block
+                unsigned k = (unsigned)t.range(0, 4);
+                for (unsigned r = 0; r < k && out.size() + 16 < target; r++) {
+                    size_t dist = (size_t)t.range(len / 2 + 1, out.size());
+                    size_t cl = std::min(target - out.size(), (size_t)t.range(8, 3000));
+                    size_t from = out.size() - dist;
+                    for (size_t i = 0; i < cl; i++) out.push_back(out[from + i]);
+                    for (size_t i = 0; i < 5 && out.size() < target; i++) out.push_back((uint8_t)('a' + (x.next() & 7)));
+                    ci.copies++; ci.farcopies++;
+                }
                 break;
             }
             case 7: {  // REPEATSEG: one segment repeated k times with differing bytes between (records with a common field:
